@@ -306,6 +306,31 @@ def run(ck):
               "ProvidersStack::consume recycles it as soon as no other stack slot holds it, without regard to the open block: `block (result i32) .. br_if 0; drop; <temp>; .. br_if 0` "
               "overwrites the temporary" % pooled[:2], pb.loc())
 
+    # third compiler hazard of the same family: `local.set x` / `local.tee x` while x is still referred to by operand-stack
+    # entries. The compiler redirects those entries to a reserve register and emits `Copy x -> reserve` AT THE CURRENT
+    # POSITION. Entries pushed before the innermost open `if`/`block`/`loop` are redirected too, but then the Copy sits in
+    # conditionally executed code: when that code is skipped the reserve register was never written and the entry reads
+    # garbage. The scan must be limited to entries above the current frame's base (or the copy hoisted).
+    for pth in sorted(c.paths()):
+        if not re.search(r"artifact::BackPatch as .*Handler<.*>>::handle_opcode$", pth):
+            continue
+        for b in c.get_all(pth):
+            g = Fn(b)
+            scans = []
+            for (bi, t) in g.calls(r"::iter_mut$"):
+                o = set(a for a in g.origins(t["args"][0], deep=False) if a[0] in ("field", "call", "arg"))
+                if ("field", "providers_stack") in o and ("field", "stack") in o:
+                    scans.append((bi, o))
+            if not scans:
+                continue
+            lim = [(bi, o) for (bi, o) in scans if ("field", "height") in o or ("field", "ctrls") in o or ("field", "opds") in o or any(a[0] == "call" and re.search(r"ops::IndexMut::index_mut$|::split_at_mut$|::get_mut$", a[1]) for a in o)]
+            ok3 = len(lim) == len(scans)
+            ck.ob("DEFUSE", g.path, "preserve-copy-scan-limited-to-the-current-frame", ok3,
+                  "the scan that redirects stack entries of an overwritten local is limited to the current control frame" if ok3 else
+                  "local.set/local.tee redirect EVERY stack entry that refers to the local to a reserve register and emit the preserving Copy at the current position: "
+                  "an entry pushed before the enclosing if/block is redirected although the Copy may be skipped (`local.get 0; local.get 1; if; i32.const 5; local.set 0; end; local.get 0; i32.sub` "
+                  "yields a - <uninitialised> instead of 0 when the branch is not taken)", g.loc(scans[0][0]))
+
     # numeric operators
     spec = json.load(open(SPEC))["instructions"]
     nn = 0
